@@ -57,6 +57,11 @@ def sources(tier, seed, ctx):
                 for add_outputs in (False, True):
                     srcs.append({'fn': 'inc', 'il': il, 'ol': ol, 'big': big, 'gen': False, 'add_outputs': add_outputs,
                                  'given_labels': (il + ol) % 2 == 0, 'host': _h(rng, 0.6)})
+    # operand lists shared between calls: the same list object as both operands, then reused
+    for fnn in ('sub', 'subc', 'divmod'):
+        for n in (1, 2, 3):
+            for big in (False, True):
+                srcs.append({'fn': 'alias', 'which': fnn, 'n': n, 'big': big, 'host': _h(rng, 0.3)})
     for j in range(8 if tier == 'quick' else 60):
         srcs.append({'fn': 'ite', 'gen': j == 0, 'add_outputs': bool(j % 2), 'host': _h(rng, 0.9) if j else None})
     for n in range(1, 4):
@@ -108,6 +113,31 @@ def record(src):
             res, flag = ar.add_subtract_with_compare(c, list(a), list(b), big_endian=big)
             checks = [{'op': 'subc', 'a': A.le(a, big), 'b': A.le(b, big), 'out': A.le(res, big), 'borrow': flag}]
             return A.finish(case, c, pre, rng, list(res) + [flag], checks, 'same', [])
+        if fn == 'alias':
+            n, which = src['n'], src['which']
+            c, ops = A.make_host(src, 2 * n)
+            pre = project(c)
+            a, b = list(ops[:n]), list(ops[n:])
+            a0, b0 = list(a), list(b)
+            if which == 'sub':
+                r1 = ar.add_sub_two_numbers(c, a, a, big_endian=big)
+                r2 = ar.add_sub_two_numbers(c, a, b, big_endian=big)
+                checks = [{'op': 'sub', 'a': A.le(a0, big), 'b': A.le(a0, big), 'out': A.le(r1, big), 'borrow': ''},
+                          {'op': 'sub', 'a': A.le(a0, big), 'b': A.le(b0, big), 'out': A.le(r2, big), 'borrow': ''}]
+                ret = list(r1) + list(r2)
+            elif which == 'subc':
+                r1, f1 = ar.add_subtract_with_compare(c, a, a, big_endian=big)
+                r2, f2 = ar.add_subtract_with_compare(c, a, b, big_endian=big)
+                checks = [{'op': 'subc', 'a': A.le(a0, big), 'b': A.le(a0, big), 'out': A.le(r1, big), 'borrow': f1},
+                          {'op': 'subc', 'a': A.le(a0, big), 'b': A.le(b0, big), 'out': A.le(r2, big), 'borrow': f2}]
+                ret = list(r1) + list(r2) + [f1, f2]
+            else:
+                q1, m1 = ar.add_div_mod(c, a, a, big_endian=big)
+                q2, m2 = ar.add_div_mod(c, a, b, big_endian=big)
+                checks = [{'op': 'divmod', 'a': A.le(a0, big), 'b': A.le(a0, big), 'q': A.le(q1, big), 'r': A.le(m1, big)},
+                          {'op': 'divmod', 'a': A.le(a0, big), 'b': A.le(b0, big), 'q': A.le(q2, big), 'r': A.le(m2, big)}]
+                ret = list(q1) + list(m1) + list(q2) + list(m2)
+            return A.finish(case, c, pre, rng, ret, checks, 'same', [])
         if fn == 'divmod':
             n = src['n']
             if src['gen'] and not src.get('host'):
